@@ -464,7 +464,7 @@ def log_passes(draw, max_channels=6, max_frames=60, allow_dipmeter=True, x_units
     indirect = draw(st.booleans())
     xs = draw(x_axis_specs())
     sign = -1 if xs['up_down'] == 1 else 1
-    nch = draw(st.integers(1, max_channels))
+    nch = draw(st.integers(1, max_channels)) if max_channels <= 6 or draw(st.integers(0, 3)) else draw(st.integers(9, max_channels))
     dsbs = []
     for k in range(nch):
         if k == 0 and not indirect:
@@ -475,7 +475,7 @@ def log_passes(draw, max_channels=6, max_frames=60, allow_dipmeter=True, x_units
             d['mnem'] = b'DEPT'
         else:
             d = draw(dsb_models(allow_dipmeter=allow_dipmeter))
-            d['mnem'] = (b'C%d' % k).ljust(2) + d['mnem'][:2]
+            d['mnem'] = ((b'C%d' % k) if k < 10 else bytes([ord('C'), ord('A') + k - 10])) + d['mnem'][:2]     # four bytes, unique per channel
         dsbs.append(d)
     nframes = draw(st.one_of(st.integers(1, 12), st.integers(1, max_frames)))
     # frames per record pattern
@@ -551,7 +551,7 @@ def log_pass_records(lp):
 
 @st.composite
 def lis_files(draw, max_passes=3, max_frames=60, tif_options=('none', 'normal', 'reversed'), allow_dipmeter=True, tables=True,
-              pairs=False, empty_passes=False, x_units=None, spacing_pairs=False, mid_tables=False):
+              pairs=False, empty_passes=False, x_units=None, spacing_pairs=False, mid_tables=False, max_channels=6):
     """A whole LIS file model: [reel/tape header] (file header, tables, log pass, tables, file trailer)+ [tape/reel trailer]."""
     cfg = draw(phys_cfgs(tif_options=tif_options))
     if cfg['pr_len'] < 16:
@@ -579,14 +579,14 @@ def lis_files(draw, max_passes=3, max_frames=60, tif_options=('none', 'normal', 
             items.append(('pass', dict(e, frames=[], per_record=[])))
         if pairs and draw(st.integers(0, 3)) == 0:
             # a normal data (type 0) and an alternate data (type 1) log pass in ONE logical file, their data records interleaved
-            a = draw(log_passes(max_frames=max_frames, allow_dipmeter=allow_dipmeter, x_units=x_units, spacing_pairs=spacing_pairs))
-            b = draw(log_passes(max_frames=max_frames, allow_dipmeter=allow_dipmeter, x_units=x_units, spacing_pairs=spacing_pairs))
+            a = draw(log_passes(max_channels=max_channels, max_frames=max_frames, allow_dipmeter=allow_dipmeter, x_units=x_units, spacing_pairs=spacing_pairs))
+            b = draw(log_passes(max_channels=max_channels, max_frames=max_frames, allow_dipmeter=allow_dipmeter, x_units=x_units, spacing_pairs=spacing_pairs))
             a = dict(a, data_type=0, blocks=[dict(x, value=0) if x['type'] == 1 else x for x in a['blocks']])
             b = dict(b, data_type=1, blocks=[dict(x, value=1) if x['type'] == 1 else x for x in b['blocks']])
             order = draw(st.lists(st.booleans(), min_size=len(a['per_record']) + len(b['per_record']), max_size=len(a['per_record']) + len(b['per_record'])))
             items.append(('pass_pair', {'a': a, 'b': b, 'order': order, 'b_first': draw(st.booleans())}))
         else:
-            lp_ = draw(log_passes(max_frames=max_frames, allow_dipmeter=allow_dipmeter, x_units=x_units, spacing_pairs=spacing_pairs))
+            lp_ = draw(log_passes(max_channels=max_channels, max_frames=max_frames, allow_dipmeter=allow_dipmeter, x_units=x_units, spacing_pairs=spacing_pairs))
             if mid_tables and len(lp_['per_record']) >= 2 and draw(st.integers(0, 3)) == 0:
                 where = draw(st.integers(1, len(lp_['per_record']) - 1))
                 lp_ = dict(lp_, mid_tables=[[where, {'lr_type': 34, 'name': draw(st.sampled_from([b'CONS', b'CONS', b'TOOL', b'OUTP'])), 'columns': [b'MNEM', b'VALU'],
